@@ -540,6 +540,30 @@ pub fn check(_ctx: &Ctx, input: &Input) -> CaseResult {
 
 // ---- depth 10^5 on a small stack, in a child process ----
 
+#[derive(Default)]
+struct Count(usize);
+impl<'a> Visitor<'a> for Count {
+    fn visit_instr(&mut self, _: &'a Instr, _: &'a InstrLocId) {
+        self.0 += 1;
+        if self.0 > 2_000_000 {
+            // a traversal that re-reports instructions forever
+            println!("runaway");
+            std::process::exit(5);
+        }
+    }
+}
+#[derive(Default)]
+struct CountMut(usize);
+impl VisitorMut for CountMut {
+    fn visit_instr_mut(&mut self, _: &mut Instr, _: &mut InstrLocId) {
+        self.0 += 1;
+        if self.0 > 2_000_000 {
+            println!("runaway");
+            std::process::exit(5);
+        }
+    }
+}
+
 pub fn child_main(kind: &str) -> i32 {
     let bytes = super::c05::deep_module_pub(kind);
     let mut m = match walrus::Module::from_buffer(&bytes) {
@@ -556,12 +580,12 @@ pub fn child_main(kind: &str) -> i32 {
             let mut n_mut = 0usize;
             for (_, lf) in m.funcs.iter_local_mut() {
                 let entry = lf.entry_block();
-                let mut v = RecDefault::default();
+                let mut v = Count::default();
                 dfs_in_order(&mut v, lf, entry);
-                n_in += v.ev.iter().filter(|e| matches!(e, Ev::Instr(_))).count();
-                let mut v = RecMutDefault::default();
+                n_in += v.0;
+                let mut v = CountMut::default();
                 dfs_pre_order_mut(&mut v, lf, entry);
-                n_mut += v.ev.iter().filter(|e| matches!(e, Ev::Instr(_))).count();
+                n_mut += v.0;
             }
             // leak the module: dropping is not under test here
             std::mem::forget(m);
@@ -598,6 +622,12 @@ fn deep_case(kind: &str) -> CaseResult {
             format!("traversing the depth-10^5 '{}' tree on a 256 KiB stack died with signal {}", kind, sig),
         ));
     }
+    if o.status.code() == Some(5) {
+        return Err(Failure::new(
+            format!("deep-traversal:{}:runaway", kind),
+            format!("traversal of the '{}' tree reported more than 2*10^6 instructions (tree has far fewer): it re-reports instructions / does not terminate", kind),
+        ));
+    }
     if o.status.code() != Some(0) {
         return Err(Failure::new(
             format!("deep-traversal:{}:panicked", kind),
@@ -609,6 +639,7 @@ fn deep_case(kind: &str) -> CaseResult {
     let want = match kind {
         "blocks" | "loops" => n,
         "ifs" => 2 * n,
+        "wide" => 70_005,
         _ => 0,
     };
     let nums: Vec<usize> = stdout.split_whitespace().filter_map(|x| x.parse().ok()).collect();
@@ -625,7 +656,7 @@ fn deep_case(kind: &str) -> CaseResult {
 }
 
 fn run(ctx: &Ctx) {
-    let deep: Vec<Input> = ["blocks", "loops", "ifs"].iter().map(|k| Input::Json(json!({ "deep": k }))).collect();
+    let deep: Vec<Input> = ["blocks", "loops", "ifs", "wide"].iter().map(|k| Input::Json(json!({ "deep": k }))).collect();
     run_inputs(ctx, &deep, &check);
     let plans = [
         GenPlan {
